@@ -37,6 +37,7 @@ type respJ struct {
 	Body         []string
 	Close        bool
 	Uncompressed bool
+	Late         http.Header // trailer fields that arrive without having been declared
 }
 
 // cstr renders a byte string; long runs of one byte become (rep c n) so that
@@ -84,9 +85,9 @@ func cstrList(ss []string) string {
 func coqZ(n int64) string { return fmt.Sprintf("(%d)%%Z", n) }
 
 func coqResp(r respJ) string {
-	return fmt.Sprintf("(mkResp %d %d %d %s %s %s %s %s %s %s %s)", r.Major, r.Minor, r.Code, coqfmt.Str(r.Status),
+	return fmt.Sprintf("(mkResp %d %d %d %s %s %s %s %s %s %s %s %s)", r.Major, r.Minor, r.Code, coqfmt.Str(r.Status),
 		coqfmt.Header(r.Hdr), coqZ(r.CL), coqfmt.Bool(r.Chunked), coqfmt.Header(r.Trailer), cstrList(r.Body),
-		coqfmt.Bool(r.Close), coqfmt.Bool(r.Uncompressed))
+		coqfmt.Bool(r.Close), coqfmt.Bool(r.Uncompressed), coqfmt.Header(r.Late))
 }
 
 func coqPats(ps [][2]byte) string {
@@ -150,6 +151,7 @@ func (c *countFlusher) Flush() error { c.n++; return nil }
 type scripted struct {
 	pieces []string
 	got    []string
+	onEOF  func() // what http.Transport does when the body ends: merge the trailer fields that arrived
 }
 
 func (s *scripted) Read(p []byte) (int, error) {
@@ -157,6 +159,10 @@ func (s *scripted) Read(p []byte) (int, error) {
 		s.pieces = s.pieces[1:]
 	}
 	if len(s.pieces) == 0 {
+		if s.onEOF != nil {
+			s.onEOF()
+			s.onEOF = nil
+		}
 		return 0, io.EOF
 	}
 	n := copy(p, s.pieces[0])
@@ -339,6 +345,19 @@ func gcase(c gcaseJ) (string, error) {
 	fw := &flagWriter{w: w, fl: fl}
 	body := &scripted{pieces: append([]string(nil), c.R.Body...)}
 	res := c.R.toHTTP(c.Meth, body)
+	if len(c.R.Late) > 0 {
+		// net/http transfer.go mergeSetHeader: undeclared trailer fields are merged into res.Trailer when
+		// that map exists, otherwise a new map is installed on the response (too late for Response.Write)
+		body.onEOF = func() {
+			if res.Trailer == nil {
+				res.Trailer = c.R.Late.Clone()
+				return
+			}
+			for k, vv := range c.R.Late {
+				res.Trailer[k] = vv
+			}
+		}
+	}
 	err := res.Write(fw)
 	// the model takes the reads the body actually delivered; what was never read stays as one more piece
 	rj := c.R
@@ -686,6 +705,12 @@ func main() {
 		switch r.Intn(6) {
 		case 0, 1: // chunked, maybe trailers
 			rj.CL, rj.Chunked, rj.Trailer = -1, true, genTrailer(r)
+			if r.Chance(1, 3) {
+				rj.Late = http.Header{"X-Late": {"l"}}
+				if r.Chance(1, 2) {
+					rj.Late["A-Late"] = []string{"1", "2"}
+				}
+			}
 			framings["chunked"]++
 		case 2, 3: // content-length
 			rj.CL = total
